@@ -275,6 +275,11 @@ def check(case, mon, ctx):
                 continue
             if not same_shape(r.polygon, poly):
                 mon.violation('geometry-unchanged', dict(w, region=r.id, got=np.asarray(r.polygon), expected=poly))
+            # the region and line objects that were handed in (the caller may still hold them) describe the same shapes as before, whether or not the page returns them
+            mon.count('input_objects_rechecked')
+            if not same_shape(r0.polygon, poly) or any(not same_shape(l0.baseline, lbase, line=True) or not same_shape(l0.polygon, lpoly) for (l0, lid, ltext, lbase, lpoly) in lines):
+                mon.violation('geometry-unchanged', dict(w, region=r.id, note='the region object that was handed in (%s the one the page now holds) no longer has its geometry' % ('it is' if r is r0 else 'it is not'),
+                                                         got=np.asarray(r0.polygon), expected=poly))
             for l, (l0, lid, ltext, lbase, lpoly) in zip(r.lines, lines):
                 if l.transcription != ltext or list(l.heights) != [15, 5]:
                     mon.violation('region-content-intact', dict(w, line=lid, field='transcription/heights'))
